@@ -369,6 +369,14 @@ func vHostileEncoded(tp *verifsim.Tape, payload string) string {
 }
 
 func vScenarioC12(rc *runCtx) {
+	switch rc.param("mode", "fields") {
+	case "archive":
+		vC12Archive(rc)
+		return
+	case "terminal":
+		vC12Terminal(rc)
+		return
+	}
 	tp := rc.tape
 	cfg, o, _ := vSmallXfer(rc, []int{2, 5})
 	// the progress display is part of the attack surface
